@@ -455,6 +455,7 @@ func c20RunPipelinesOnce(ins []c20PipelineIn, exe string, raceBuild bool) ([]c20
 	b, _ := json.Marshal(ins)
 	_ = os.WriteFile(inPath, b, 0o644)
 	cmd := exec.Command(exe, "-test.run", "^TestC20PipelineChild$", "-test.timeout", "10m")
+	coverChild(cmd)
 	cmd.Env = append(os.Environ(), c20PipeInEnv+"="+inPath, c20PipeOutEnv+"="+outPath, "VERIF_OUT="+filepath.Join(dir, "unused.jsonl"))
 	var buf bytes.Buffer
 	cmd.Stdout, cmd.Stderr = &buf, &buf
